@@ -23,12 +23,8 @@ let limits_of (tables : sexp) (nnums : int) (nstrs : int) (nregexes : int) : lim
         | List [Atom f; _; Atom sc; _; Atom t] -> f = "-" && sc = "3" && t = ty
         | _ -> failwith "var entry" in
       let natives = count (function List [_; Atom n; _; _] -> n = "1" | _ -> failwith "func entry") funcs in
-      { lm_globals = z_of_int (count (is_glob "1") vars);
-        lm_garrays = z_of_int (count (is_glob "2") vars);
-        lm_larrays = z_of_int 0;
-        lm_specials = z_of_int 17;
-        lm_nums = z_of_int nnums; lm_strs = z_of_int nstrs; lm_regexes = z_of_int nregexes;
-        lm_natives = z_of_int natives; lm_funcs = [] }
+      program_limits (z_of_int (count (is_glob "1") vars)) (z_of_int (count (is_glob "2") vars))
+        (z_of_int nnums) (z_of_int nstrs) (z_of_int nregexes) (z_of_int natives)
   | _ -> failwith "tables dump"
 
 let parse_compiled (s : sexp) : wprogram * int * int * int =
